@@ -504,12 +504,15 @@ register(
               ("hist_restore_async", 1, gen_c11("async", 76, with_restore=True, hist_parallel=True)),
               # regions resting in a FINAL child when the history-owning parallel parent is left
               ("hist_parallel_final_sync", 2, gen_c11("sync", 77, hist_parallel=True, p_parallel=0.45, p_final=0.3, p_on_done=0.1)),
+              # transitions declared on / inside the history-owning state that target its OWN history child
+              ("hist_own_sync", 2, gen_c11("sync", 79, hist_parallel=True, p_parallel=0.35, w_target={"own_history": 6, "history": 3, "any": 5, "sibling": 4})),
+              ("hist_own_async", 1, gen_c11("async", 80, with_restore=True, hist_parallel=True, p_parallel=0.35, w_target={"own_history": 6, "history": 3, "any": 5, "sibling": 4})),
               ("hist_parallel_final_async", 1, gen_c11("async", 78, hist_parallel=True, p_parallel=0.45, p_final=0.3, p_on_done=0.1,
                                                        with_restore=True))],
     oracle=O.oracle_c11,
     stats=O.stats_c11,
     level="exploration",
-    tiers={"quick": {"runs": 18000}, "thorough": {"runs": 600000}},
+    tiers={"quick": {"runs": 26000}, "thorough": {"runs": 600000}},
     rule=("machines dense in shallow/deep history children (under compound and parallel parents, any depth, with and without default "
           "targets) and transitions targeting them; the harness records, from entry/exit markers, what was active under each "
           "history-owning parent at its last exit and computes the expected restored configuration with its own default-descent "
